@@ -9,13 +9,18 @@ Inductive abit :=
 | A0 | A1
 | AP (i : N)            (* bit i of parameter 0 *)
 | AO (o : nat) (i : N)  (* bit i of octet o *)
+| AF (f : fld) (i : N)  (* bit i of the field f (a.Iei, a.Len, counter.count) *)
 | ATop.
+
+Definition fld_eqb (f g : fld) : bool :=
+  match f, g with FIei, FIei | FLen, FLen | FCount, FCount => true | _, _ => false end.
 
 Definition abit_eqb (a b : abit) : bool :=
   match a, b with
   | A0, A0 | A1, A1 => true   (* ATop is not equal to itself: two unknown bits need not agree *)
   | AP i, AP j => i =? j
   | AO o i, AO p j => Nat.eqb o p && (i =? j)
+  | AF f i, AF g j => fld_eqb f g && (i =? j)
   | _, _ => false
   end.
 
@@ -25,10 +30,12 @@ Proof.
   - intro H. apply N.eqb_eq in H. congruence.
   - intro H. apply andb_true_iff in H as [H1 H2].
     apply Nat.eqb_eq in H1. apply N.eqb_eq in H2. congruence.
+  - intro H. apply andb_true_iff in H as [H1 H2]. apply N.eqb_eq in H2.
+    destruct f, f0; cbn in H1; try discriminate; congruence.
 Qed.
 
 (* concrete environment: octets (as a total function) and the parameter value *)
-Record cenv := mkenv { c_oct : nat -> N; c_par : N }.
+Record cenv := mkenv { c_oct : nat -> N; c_par : N; c_fld : fld -> N }.
 
 Definition sem (c : cenv) (a : abit) : option bool :=
   match a with
@@ -36,6 +43,7 @@ Definition sem (c : cenv) (a : abit) : option bool :=
   | A1 => Some true
   | AP i => Some (N.testbit (c_par c) i)
   | AO o i => Some (N.testbit (c_oct c o) i)
+  | AF f i => Some (N.testbit (c_fld c f) i)
   | ATop => None
   end.
 
@@ -66,6 +74,14 @@ Definition axor1 (x y : abit) : abit :=
   | A0, z | z, A0 => z
   | A1, A1 => A0
   | _, _ => if abit_eqb x y then A0 else ATop
+  end.
+
+(* x &^ y, bit by bit *)
+Definition aandnot1 (x y : abit) : abit :=
+  match y with
+  | A0 => x
+  | A1 => A0
+  | _ => match x with A0 => A0 | _ => ATop end
   end.
 
 Definition idx64 : list N := map N.of_nat (seq 0 64).
@@ -103,7 +119,7 @@ Section AEval.
     | EParam O t => atrunc (tbits t) (fun i => AP i)
     | EParam _ _ => atop
     | EOct o => atrunc 8 (fun i => AO o i)
-    | EFld _ => atop
+    | EFld f => fun i => AF f i
     | ECast t a => atrunc (tbits t) (aeval a)
     | EBin op t a b =>
         let x := aeval a in
@@ -127,10 +143,15 @@ Section AEval.
             | Some p, Some q => aconst (binop_sem OAdd t p q)
             | _, _ => if carry_free x y then atrunc (tbits t) (fun i => pick1 (x i) (y i)) else atop
             end
-        | OSub | OAndNot =>
+        | OSub =>
             match is_const x, is_const y with
             | Some p, Some q => aconst (binop_sem op t p q)
             | _, _ => atop
+            end
+        | OAndNot =>
+            match is_const x, is_const y with
+            | Some p, Some q => aconst (binop_sem op t p q)
+            | _, _ => fun i => if i <? tbits t then aandnot1 (x i) (y i) else A0
             end
         end
     | EMask a b =>
